@@ -80,6 +80,8 @@ class SqlalchemyRender:
         for i in parts:
             if isinstance(i, ast.Star):
                 p = '*'
+            elif i == '':
+                raise NotImplementedError('Empty identifier part')
             else:
                 p = str(sa.column(i).compile(dialect=self.dialect))
             parts2.append(p)
@@ -398,10 +400,16 @@ class SqlalchemyRender:
                 # TODO tests is failing
                 raise NotImplementedError(f'Path to long: {table_name.parts}')
 
+            if any(not isinstance(part, str) or part == '' for part in parts):
+                raise NotImplementedError(f'Table name: {table_name.parts}')
+
             if len(parts) == 2:
                 schema = parts[-2]
 
             table_name = parts[-1]
+
+        elif not isinstance(table_name, str):
+            raise NotImplementedError(f'Table name: {table_name.__class__.__name__}')
 
         return schema, table_name
 
